@@ -18,7 +18,9 @@ package bttest
 
 import (
 	"bytes"
+	"fmt"
 
+	btapb "cloud.google.com/go/bigtable/admin/apiv2/adminpb"
 	btpb "cloud.google.com/go/bigtable/apiv2/bigtablepb"
 	"google.golang.org/grpc/codes"
 	"google.golang.org/grpc/status"
@@ -84,4 +86,48 @@ func keysOutOfRange(start, end []byte) bool {
 	}
 	// Both keys have been set now check if start > end.
 	return bytes.Compare(start, end) > 0
+}
+
+// validateGcRule rejects garbage-collection rules that a later GC pass cannot apply: the pass runs in a background
+// goroutine, where a negative version count (used as a slice bound) or a missing rule body would take the whole
+// server down. A nil rule (no garbage collection) and an empty rule are fine.
+func validateGcRule(rule *btapb.GcRule) error {
+	if rule == nil {
+		return nil
+	}
+	switch r := rule.Rule.(type) {
+	case *btapb.GcRule_MaxNumVersions:
+		if r.MaxNumVersions < 0 {
+			return fmt.Errorf("max_num_versions must not be negative, got %d", r.MaxNumVersions)
+		}
+	case *btapb.GcRule_MaxAge:
+		if r.MaxAge == nil {
+			return fmt.Errorf("max_age is not set")
+		}
+	case *btapb.GcRule_Union_:
+		if r.Union == nil {
+			return fmt.Errorf("union is not set")
+		}
+		for _, sub := range r.Union.Rules {
+			if sub == nil {
+				return fmt.Errorf("union has an unset member")
+			}
+			if err := validateGcRule(sub); err != nil {
+				return err
+			}
+		}
+	case *btapb.GcRule_Intersection_:
+		if r.Intersection == nil {
+			return fmt.Errorf("intersection is not set")
+		}
+		for _, sub := range r.Intersection.Rules {
+			if sub == nil {
+				return fmt.Errorf("intersection has an unset member")
+			}
+			if err := validateGcRule(sub); err != nil {
+				return err
+			}
+		}
+	}
+	return nil
 }
